@@ -244,10 +244,8 @@ def visible_mismatch(t1, f1, t2, f2):
             return True
         if t1 == "SparselyBin" and visible_mismatch(f1["nanflow:type"], f1["nanflow"], f2["nanflow:type"], f2["nanflow"]):
             return True
-        if f1["bins"] and f2["bins"]:
-            a, b = next(iter(f1["bins"].values())), next(iter(f2["bins"].values()))
-            return visible_mismatch(f1["bins:type"], a, f2["bins:type"], b)
-        return False
+        # any bin of one side against any bin of the other: one bin alone may be a nested sparse container that is still empty
+        return any(visible_mismatch(f1["bins:type"], a, f2["bins:type"], b) for a in f1["bins"].values() for b in f2["bins"].values())
     if t1 in ("CentrallyBin", "IrregularlyBin", "Stack"):
         key = "center" if t1 == "CentrallyBin" else "atleast"
         if [b[key] for b in f1["bins"]] != [b[key] for b in f2["bins"]] or f1["bins:type"] != f2["bins:type"]:
@@ -292,7 +290,7 @@ def _valid_spec(sp):
 class C10(Scenario):
     prop = "C10"
     level = "fault_enumeration"
-    profiles = ["misdelivery", "misdelivery", "misdelivery", "built"]
+    profiles = ["misdelivery", "misdelivery", "misdelivery", "built", "nested-sparse"]
     budgets = {"quick": 5000, "thorough": 100000}
     wall_caps = {"quick": 110, "thorough": 1500}
     block = 16
@@ -307,7 +305,7 @@ class C10(Scenario):
                    "operands are rebuilt from their recorded fills before every attempt, so one failed += cannot contaminate the next"]
     expected_faults = ["misdelivery"]
     expected_probes = ["nested_mismatch", "mismatch_under_empty_sparse", "acc_filled", "operand_reloaded", "tolerance_configured",
-                       "tiny_mismatch", "built_layer_count", "absorbed_then_original_partner"]
+                       "tiny_mismatch", "built_layer_count", "absorbed_then_original_partner", "first_bin_uninformative"]
 
     def generate(self, rng, tier, profile):
         big = tier == "thorough"
@@ -326,6 +324,20 @@ class C10(Scenario):
         k = rng.fork("knobs")
         tol = k.pick([0.0, 0.0, 1e-9, 1e-6])  # histogrammar.util.relativeTolerance / absoluteTolerance: a knob of ==, not of +
         tolmode = k.pick(["both", "rel", "abs"])
+        if profile == "nested-sparse":
+            # two levels of sparse containers; the accumulator is reloaded from JSON and the bin that comes first in it is a
+            # nested sparse container that has only seen NaN (no bins: it knows nothing about what lies below)
+            leaf = specmod.gen_spec(rng.fork("leaf"), specmod.merge_opts(depth=1, max_nodes=2, max_num=3, prims=["Bin", "Bag", "Stack", "IrregularlyBin", "CentrallyBin"]))
+            inner = {"p": "SparselyBin", "binWidth": 1.0, "origin": 0.0, "q": {"f": "x", "kind": "lambda"}, "value": leaf, "nanflow": None}
+            outer = {"p": "Categorize", "q": {"f": "s", "kind": "lambda"}, "value": inner} if k.chance(0.5) else \
+                {"p": "SparselyBin", "binWidth": 1.0, "origin": 0.0, "q": {"f": "y", "kind": "lambda"}, "value": inner, "nanflow": None}
+            base = {"b": True, "c": 1.0, "t": "a"}
+            recs2 = [dict(base, s="a", y=0.5, x=float("nan")), dict(base, s="b", y=1.5, x=0.5), dict(base, s="c", y=2.5, x=0.5), dict(base, s="c", y=2.5, x=3.5)]
+            muts = [(dsc, m) for dsc, m in structural_mutants(outer) if _valid_spec(m) and dsc.split("@")[1].startswith("value/value")]
+            steps = [{"op": "misdeliver", "what": dsc, "mutant": m, "form": f} for dsc, m in muts for f in FORMS]
+            return {"spec": outer, "records": [specmod.enc_record(r) for r in recs2], "acc_fill": [[0, 1.0], [1, 1.0]], "acc_fill2": None,
+                    "p_fill": [[2, 1.0], [3, 2.0]], "steps": steps, "reload_acc": True, "reload_p": k.chance(0.3), "tol": 0.0, "tolmode": "both",
+                    "vary_label_order": False}
         if profile == "built":
             steps = []
             for _ in range(8):
@@ -467,6 +479,8 @@ class C10(Scenario):
                 self._absorb_then_reject(case, w, R, si, st, sp, m)
             units += 1
             w.bump("fault_misdelivery")
+            if case.get("profile") == "nested-sparse":
+                w.bump("probe_first_bin_uninformative")
             if "/" in st["what"]:
                 w.bump("probe_nested_mismatch")
                 if case["acc_fill"]:
